@@ -59,12 +59,13 @@ type Kind struct {
 	// (the type is Level from the scratch sub-package scratchmod/x/<Collide>).
 	Collide string
 	// JSON part (C15)
-	JVals  func(i int, e Env) [2]string // faithful values; nil = same as Vals
-	JFail  bool                         // json.Marshal fails on this type (func, chan)
-	Omit   string                       // "yes" (unnamed nilable / Option), "no", "ambig", "T" (type parameter: take the instantiation's)
-	JEmpty [2]bool                      // which of the two JSON values is "empty" in the omitempty sense
-	JLossy [2]bool                      // which of the two values does not survive its own JSON encoding (unexported content, a non-nil value of a non-empty interface type): no round trip is demanded of a struct value that holds it
-	JWrong string                       // a JSON value of the wrong type for this field
+	JVals        func(i int, e Env) [2]string // faithful values; nil = same as Vals
+	JFail        bool                         // json.Marshal fails on this type (func, chan)
+	Omit         string                       // "yes" (unnamed nilable / Option), "no", "ambig", "T" (type parameter: take the instantiation's)
+	JEmpty       [2]bool                      // which of the two JSON values is "empty" in the omitempty sense
+	JEmptyNonNil [2]bool                      // which of the two values is an EMPTY but NON-NIL slice / map: it is dropped by omitempty, so it round-trips only under a tag without omitempty
+	JLossy       [2]bool                      // which of the two values does not survive its own JSON encoding (unexported content, a non-nil value of a non-empty interface type): no round trip is demanded of a struct value that holds it
+	JWrong       string                       // a JSON value of the wrong type for this field
 }
 
 func n1(i int) int { return 10*i + 1 }
@@ -152,6 +153,35 @@ var Kinds = []*Kind{
 	}, Omit: "yes", JEmpty: [2]bool{false, true}, JLossy: [2]bool{true, false}, JWrong: `5`},
 }
 
+// NilVsEmptyKinds: slice / map / []byte fields whose two values tell nil from empty-but-non-nil
+// (reflect.DeepEqual does). They are not crossed with everything (see NilVsEmpty).
+var NilVsEmptyKinds = []*Kind{
+	{ID: "slice-empty", Type: "[]int", Vals: simple("[]int{}", "[]int(nil)"), Omit: "yes", JEmpty: [2]bool{true, true}, JEmptyNonNil: [2]bool{true, false}, JWrong: `5`},
+	{ID: "map-empty", Type: "map[string]int", Vals: simple("map[string]int{}", "map[string]int(nil)"), Omit: "yes", JEmpty: [2]bool{true, true}, JEmptyNonNil: [2]bool{true, false}, JWrong: `5`},
+	{ID: "bytes", Type: "[]byte", Vals: simple(`[]byte("b%[1]d")`, "[]byte{}"), Omit: "yes", JEmpty: [2]bool{false, true}, JEmptyNonNil: [2]bool{false, true}, JWrong: `5`},
+	{ID: "bytes-empty", Type: "[]byte", Vals: simple("[]byte{}", "[]byte(nil)"), Omit: "yes", JEmpty: [2]bool{true, true}, JEmptyNonNil: [2]bool{true, false}, JWrong: `5`},
+	{ID: "slice-T-empty", Type: "[]T", TP: []string{"T"}, Vals: func(i int, e Env) [2]string {
+		return [2]string{fmt.Sprintf("[]%s{}", e.t("T").Type), fmt.Sprintf("[]%s(nil)", e.t("T").Type)}
+	}, Omit: "yes", JEmpty: [2]bool{true, true}, JEmptyNonNil: [2]bool{true, false}, JWrong: `5`},
+}
+
+// NilVsEmpty: the kinds above as private and public one-field structs with each tag variant, and a
+// three-field struct holding a slice, a map and a []byte.
+func NilVsEmpty(a Annot, tags []tagVariant) []*Shape {
+	var out []*Shape
+	for _, tg := range tags {
+		for _, v := range []string{"priv", "pub"} {
+			for _, k := range NilVsEmptyKinds {
+				s := mkShape("nil-vs-empty", a, []Form{{v, k}}, []tagVariant{tg})
+				out = append(out, s)
+			}
+		}
+		k := kindByID
+		out = append(out, mkShape("nil-vs-empty", a, []Form{{"priv", k("slice-empty")}, {"pub", k("map-empty")}, {"priv", k("bytes")}}, []tagVariant{tg, tg, tg}))
+	}
+	return out
+}
+
 // EmbKinds are the embedded-field forms.
 var EmbKinds = []*Kind{
 	{ID: "Pub", Type: "Pub", Emb: true, EmbName: "Pub", Vals: simple("Pub{X: %[1]d}", "Pub{}"), JWrong: `5`},
@@ -175,6 +205,11 @@ var EmbKinds = []*Kind{
 
 func kindByID(id string) *Kind {
 	for _, k := range Kinds {
+		if k.ID == id {
+			return k
+		}
+	}
+	for _, k := range NilVsEmptyKinds {
 		if k.ID == id {
 			return k
 		}
